@@ -33,6 +33,7 @@ structure St where
   nc : Bool           -- NETCONF driver
   mode : Mode
   twice : Bool        -- the caller calls Close a second time after the first returned
+  closeErr : Bool     -- `Impl.Close()` returns a non-nil error (peer already gone, connection reset)
   -- program counters
   r : RPc
   k : KPc
@@ -51,6 +52,7 @@ structure St where
   rlDone : Bool       -- readLoopDone is closed
   ncDoneClosed : Bool -- close(d.done) has happened (netconf)
   closeCalls : Nat    -- number of Impl.Close calls so far
+  lastErr : Bool      -- the most recent `Channel.Close` returned a non-nil error
   panic : Panic
   deriving DecidableEq, Repr, Inhabited
 
@@ -101,7 +103,8 @@ def stepK (s : St) : List St :=
     [{ s with k := .ncChan, ncDoneClosed := true, n := if s.n = .parked then .woken else s.n }]
   | .ncChan => [{ s with k := .entry }]
   | .entry =>
-    [if s.closedFlag then { s with k := .ret } else { s with k := .signal, closedFlag := true }]
+    [if s.closedFlag then { s with k := .chanRet, lastErr := false }   -- already closed: `return nil`
+     else { s with k := .signal, closedFlag := true }]
   | .signal =>
     -- close(c.done); closing the channel commits a read loop parked in
     -- `select { c.Errs <- err; <-c.done }` to the done case
@@ -110,10 +113,16 @@ def stepK (s : St) : List St :=
   | .select =>
     -- the grace timer is an always enabled alternative; the other one needs readLoopDone closed
     if s.rlDone then [{ s with k := .force }, { s with k := .nice }] else [{ s with k := .force }]
+  -- `return c.t.Close(…)`: the transport implementation is closed whether or not it reports an error
   | .nice =>
-    [if s.r = .inRead then { s with k := .niceLk } else { s with k := .ret, closeCalls := s.closeCalls + 1 }]
-  | .niceLk => if s.r = .inRead then [] else [{ s with k := .ret, closeCalls := s.closeCalls + 1 }]
-  | .force => [{ s with k := .ret, closeCalls := s.closeCalls + 1 }]
+    [if s.r = .inRead then { s with k := .niceLk }
+     else { s with k := .chanRet, closeCalls := s.closeCalls + 1, lastErr := s.closeErr }]
+  | .niceLk =>
+    if s.r = .inRead then [] else [{ s with k := .chanRet, closeCalls := s.closeCalls + 1, lastErr := s.closeErr }]
+  | .force => [{ s with k := .chanRet, closeCalls := s.closeCalls + 1, lastErr := s.closeErr }]
+  -- back in `Driver.Close`: `if err != nil { return err }`, else log and `return nil`; neither
+  -- branch has anything left to do (for NETCONF `d.done` was closed *before* `Channel.Close`)
+  | .chanRet => [{ s with k := .ret }]
   | .ret =>
     if s.twice && !s.second then
       [if s.nc then { s with k := .ncDone, second := true } else { s with k := .entry, second := true }]
@@ -185,18 +194,19 @@ def isInit (s : St) : Bool :=
       else (s.o = .absent || s.o = .start) && s.n = .absent && s.w = .absent)
   && s.feed = .quiet && s.left = .two
   && !s.closedFlag && !s.doneClosed && !s.exited && !s.rlDone && !s.ncDoneClosed
-  && s.closeCalls = 0 && s.panic = .none
+  && s.closeCalls = 0 && !s.lastErr && s.panic = .none
 
-def mkInit (nc : Bool) (mode : Mode) (twice hasOp : Bool) : St :=
-  { nc, mode, twice, r := .top, k := .idle, second := false,
+def mkInit (nc : Bool) (mode : Mode) (twice hasOp : Bool) (closeErr : Bool := false) : St :=
+  { nc, mode, twice, closeErr, r := .top, k := .idle, second := false,
     o := if !nc && hasOp then .start else .absent, oSecond := false,
     n := if nc then .top else .absent, w := if nc && hasOp then .start else .absent,
     feed := .quiet, left := .two, closedFlag := false, doneClosed := false,
-    exited := false, rlDone := false, ncDoneClosed := false, closeCalls := 0, panic := .none }
+    exited := false, rlDone := false, ncDoneClosed := false, closeCalls := 0, lastErr := false,
+    panic := .none }
 
 def inits : List St :=
-  allBool.flatMap fun nc => allMode.flatMap fun m => allBool.flatMap fun tw => allBool.map fun op =>
-    mkInit nc m tw op
+  allBool.flatMap fun nc => allMode.flatMap fun m => allBool.flatMap fun tw => allBool.flatMap fun op =>
+    allBool.map fun ce => mkInit nc m tw op ce
 
 inductive Reach : St → Prop
   | init (s : St) : isInit s = true → Reach s
@@ -247,7 +257,7 @@ def race (s : St) : Bool :=
 
 /-- bound on the number of steps still possible once `done` is closed -/
 def rank (s : St) : Nat :=
-  s.r.rank + s.k.rank + (if s.twice && !s.second then 9 else 0) + s.o.rank s.oSecond
+  s.r.rank + s.k.rank + (if s.twice && !s.second then 10 else 0) + s.o.rank s.oSecond
   + s.n.rank + s.w.rank + s.left.toNat
 
 /-! ## inductive invariant (hand-written; proved inductive in `Lemmas/Close.lean`) -/
@@ -255,23 +265,26 @@ def rank (s : St) : Nat :=
 def kPastNcDone : KPc → Bool
   | .idle | .ncDone => false | _ => true
 def kPastEntry : KPc → Bool
-  | .signal | .select | .nice | .niceLk | .force | .ret => true | _ => false
+  | .signal | .select | .nice | .niceLk | .force | .chanRet | .ret => true | _ => false
 def kPastSignal : KPc → Bool
-  | .select | .nice | .niceLk | .force | .ret => true | _ => false
+  | .select | .nice | .niceLk | .force | .chanRet | .ret => true | _ => false
 
 /-- the shared variables have the values the program counters determine, and nobody panicked -/
 def wf (s : St) : Bool :=
   (s.second || kPastEntry s.k) = s.closedFlag && (s.second || kPastSignal s.k) = s.doneClosed
   && decide (s.r = .dead) = s.exited && decide (s.r = .dead) = s.rlDone
   && (s.nc && (s.second || kPastNcDone s.k)) = s.ncDoneClosed
-  && (if s.second || decide (s.k = .ret) then 1 else 0) = s.closeCalls && s.panic = .none
+  && (if s.second || decide (s.k = .ret) || decide (s.k = .chanRet) then 1 else 0) = s.closeCalls
+  && s.panic = .none
 
 def inv (s : St) : Bool :=
   wf s
   -- a second Close never gets past the CompareAndSwap
-  && (!s.second || s.k = .ncDone || s.k = .ncChan || s.k = .entry || s.k = .ret)
+  && (!s.second || s.k = .ncDone || s.k = .ncChan || s.k = .entry || s.k = .chanRet || s.k = .ret)
   -- the graceful path is only taken after the read loop has exited (so `implLock` is free)
   && (!(s.k = .nice || s.k = .niceLk) || s.r = .dead)
+  -- what `Channel.Close` returned: the transport's error for the call that closed it, nil for a repeat
+  && (!(s.k = .chanRet || s.k = .ret) || s.lastErr = (s.closeErr && !s.second))
   -- nobody is parked on a select whose `done` alternative is ready
   && (!(s.r = .parked) || !s.doneClosed) && (!(s.n = .parked) || !s.ncDoneClosed)
   -- which processes exist
